@@ -1,0 +1,11 @@
+//go:build verif
+
+package fasthttp
+
+// Thin exports for the /verif correspondence harness (properties C03, C16).
+
+// VerifServerDate returns the value currently written into the Date header of responses.
+func VerifServerDate() []byte {
+	serverDateOnce.Do(updateServerDate)
+	return append([]byte(nil), *serverDate.Load()...)
+}
